@@ -54,6 +54,7 @@ long shp_ldpc_constructor(uint32_t k, uint32_t r, uint32_t N1, uint32_t seed, ui
 	of_mod2sparse *m;
 	long cnt;
 	memset(&cb, 0, sizeof(cb));
+	if (!sh_in_library) sh_call_ticks = 0;
 	sh_in_library++;
 	m = of_create_pchck_matrix_rfc5170_compliant(r, k + r, N1, seed, &cb);
 	sh_in_library--;
@@ -61,6 +62,7 @@ long shp_ldpc_constructor(uint32_t k, uint32_t r, uint32_t N1, uint32_t seed, ui
 		return -1;
 	cnt = dump(m, k, r, out_rows, out_esis, cap);
 	*extra = cb.extra_entries_added_in_pchk ? 1 : 0;
+	if (!sh_in_library) sh_call_ticks = 0;
 	sh_in_library++;
 	of_mod2sparse_free(m);
 	of_free(m);
